@@ -64,6 +64,18 @@ CLAIMED["C18"] = ("other",
     "Trusted: clang 14 front end; LLVM sroa/early-cse; irx; the Python taint engine and its libc copy models; field-sensitive (not object-sensitive) treatment of struct objects; printf-family semantics for literal formats.",
     "static analysis: interprocedural source-to-sink taint analysis + byte-map loop evaluation over the 256-value domain on LLVM IR (custom checker)", "DESIGN.md §3 C18")
 
+CLAIMED["C20"] = ("other",
+    "Static ownership analysis of lib/ (claimed in part): every allocation result is NULL-checked before it is dereferenced; a typestate search over the CFG from every "
+    "allocation site (with callee consumption summaries: always / only if the callee's result is non-NULL, and aliasing through local slots) shows the object is released, "
+    "returned or handed to an owner on every path to every exit; owning pointer fields are inferred from the stores that put fresh allocations or add_ref'ed headers into them "
+    "and each must be released by the owner's free function; an owning field is overwritten only after its old value was released, moved, tested NULL or aliased (named assumptions "
+    "for the five sites that rely on 'still NULL', with close_decoder's postcondition as support rule); the conditionally owned current entry is released under each owning state before "
+    "being overwritten and in lha_reader_free; add_ref is paired with a store into an owning list; the status of functions that fail on allocation failure is not dropped. "
+    "This found three leaks and one dropped failure status, all repaired (repo commits 6cf2eaf, f7a84ba, 9ee6bc5, 15e8d10). Quantifies over all paths, hence all archives and call histories. "
+    "Not decided: the fault-injection quantifier as such (each failure is noticed and returned; how every caller up the stack reacts is not followed).",
+    "Trusted: clang 14 front end; LLVM sroa/early-cse; irx; the Python ownership engine; allocator/releaser vocabulary; named assumptions printed in the evidence (A-null-before:*, list-link).",
+    "static analysis: allocation-site typestate search over the CFG, ownership inference from stores, cut-set reasoning per owning state on LLVM IR (custom checker)", "DESIGN.md §3 C20, §2 E6")
+
 NOT_APPLICABLE = {
     "C01": "decode exactness is an equality of runtime byte streams produced by table-driven Huffman state machines; no structural clause is a necessary condition the tests leave open (DESIGN §4)",
     "C02": "lock-step of the adaptive -lh1- tree with LZHUF is an equality over runtime symbol histories (tie-break order, rebuild threshold are value computations); not decidable by static analysis in reach (DESIGN §4)",
